@@ -148,7 +148,7 @@ def run(tier, seed):
     vlib.build_harness(synlib.BIN)
     q = tier == "quick"
     # ---- layout ----------------------------------------------------------
-    lay_cfgs = ["MC_C16_q"] if q else ["MC_C16_q", "MC_C16_wide", "MC_C16_deep"]
+    lay_cfgs = ["MC_C16_q"] if q else ["MC_C16_mid", "MC_C16_wide", "MC_C16_deep"]
     rows, ntexts, samples = [], 0, []
     for cfg in lay_cfgs:
         r = vlib.tlc_must_pass(vlib.tlc("MC_C16", cfg, workers=4, timeout=1500, xmx="16g", seed=seed))
@@ -220,8 +220,9 @@ def run(tier, seed):
                 "layout with at most N simultaneous non-default choices over 15 layout dimensions (whitespace around | = , : $, "
                 "one line / delimiter-first / delimiter-last lines, LF CR CRLF, continuation lines, comment position and content, "
                 "empty steps, modifier position and =true spelling, < > sugar, subscript digits, text around the definition) and "
-                "checks that the rendered text reads back as the AST. quick: 32 cases x <=2 choices; thorough adds every "
-                "definition of <=3 steps over 3 base steps x all 8 modifier combinations x <=1 choice, and 4 cases x <=4 choices. "
+                "checks that the rendered text reads back as the AST. quick: 32 cases x <=2 choices; thorough: the 32 cases x <=3 choices, every "
+                "definition of <=3 steps over 3 base steps (0, 1 and 3 arguments) x all 8 modifier combinations per step x <=1 "
+                "choice, and 4 cases x <=4 choices. "
                 "Each text is compared with the canonical text of its AST in the real library: split_into_steps (literally "
                 "when only blanks/lines/comments/subscripts differ, as parameter maps when modifiers move), normalize "
                 "idempotence, op() outcome, steps(), params() of every step (given, typed values), apply in both directions "
@@ -268,3 +269,30 @@ def replay(path):
         return 1
     print("replay passes on the current tree")
     return 0
+
+
+def selftest(seed):
+    """Both bindings must bind: a variant text that differs in one value, and a corrupted expected value,
+    have to be noticed."""
+    vlib.build_harness(synlib.BIN)
+    r = vlib.tlc_must_pass(vlib.tlc("MC_C16", "MC_C16_q", workers=4, timeout=600, seed=seed))
+    recs = [x for x in layout_records(r["records"], "selftest") if x["nsteps"] >= 2 and x["subject"] == "def" and "c=1" in x["canon"]["def"]]
+    rec = dict(recs[0])
+    v = dict(rec["variants"][0])
+    v["def"] = v["def"].replace("c=1", "c=2", 1).replace("c =1", "c =2", 1).replace("c= 1", "c= 2", 1).replace("c = 1", "c = 2", 1)
+    rec["variants"] = [rec["variants"][1], v]
+    sm, rows = synlib.run_suite("layout", "C16-selftest", [rec])
+    ok1 = [w.get("variant") for w in rows] == [1]
+    r = vlib.tlc_must_pass(vlib.tlc("MC_C16p", "MC_C16p_q", workers=4, timeout=600, seed=seed))
+    e = next(x for x in r["records"]["PARAMS"] if x["must"] == "accept" and "real=" in x["def"] and x["values"]["real"]["n"] not in (0, 5))
+    sm, obs = synlib.run_suite("observe", "C16-selftest-p", [{"id": 0, "ctx": "minimal", "def": synlib.decode(e["def"])}])
+    clean = check_params(e, obs[0]["obs"])
+    e2 = json.loads(json.dumps(e))
+    e2["values"]["real"]["n"] += 1
+    ok2 = not clean and any(f["what"] == "real" for f in check_params(e2, obs[0]["obs"]))
+    e3 = json.loads(json.dumps(e))
+    e3["must"] = "reject"
+    ok3 = any(f["what"] == "accepted_invalid" for f in check_params(e3, obs[0]["obs"]))
+    print("selftest: layout corruption %s, value corruption %s, verdict corruption %s"
+          % tuple("detected" if k else "NOT detected" for k in (ok1, ok2, ok3)))
+    return 0 if ok1 and ok2 and ok3 else 2
